@@ -145,11 +145,19 @@ def _init(ck, fx):
     if ck.anchor("R5.init", "GlobalFrame::from", gp):
         good = False
         for p in gp:
+            if not (p["out"][0] == "val" and isinstance(p["out"][1], tuple) and p["out"][1][:1] == ("ok",)):
+                continue
             for e in p["eff"]:
-                if e["k"] == "foreach":
-                    for r in e.get("results", []):
-                        if r[0] == "tuple" and r[1][1] == ("var", "initial"):
-                            good = True
+                if e["k"] == "foreach" and e["args"][0][0] == "iter" and e["args"][0][1] == ("var", "names") and all((x[0] if isinstance(x, tuple) else x) == "map" for x in e["args"][0][3]):
+                    # either collected as (name, initial) pairs or inserted name ↦ initial on every continuing pass
+                    per = []
+                    for q in e.get("paths", []):
+                        r = q["out"][1] if q["out"][0] == "val" else None
+                        pair = isinstance(r, tuple) and r[:1] == ("tuple",) and r[1][0] == e.get("elem") and r[1][1] == ("var", "initial")
+                        ins = [c for c in q["eff"] if c["k"] == "call" and V.suffix(c) == "insert" and len(c["args"]) == 4]
+                        per.append(pair or (len(ins) == 1 and ins[0]["args"][2] == e.get("elem") and ins[0]["args"][3] == ("var", "initial")
+                                            and V.mentions(p["out"][1], ins[0]["args"][1])))
+                    good = bool(per) and all(per)
         ck.ob("R5.init", "every declared global maps to the initial value", good, "", "GlobalFrame::from builds (name, initial) pairs: %s" % good)
     # only Slot globals become variables, only Method globals become functions (filter predicates)
     filt = []
